@@ -30,9 +30,9 @@ def run(ctx):
                 ctx.violation(f'C09:model:{p}:{res.violation}', {'program': p, 'cex_tail': res.cex[-2:]})
         c10.replay_graph(ctx, 'Dup', c10.MSGS['Dup'], 2, 0, 1, 0, True, wd)
         names = QUICK if ctx.quick else list(CORPUS)
-        cfgs = [(3, 1), (4, 1)] if ctx.quick else [(2, 0), (3, 1), (4, 1), (5, 2), (7, 3)]
-        corpus_check(ctx, 'C09', names, cfgs, nrand=2 if ctx.quick else 6,
-                     budget_events=200000 if ctx.quick else 1500000, clauses=CLAUSES, nfam=2)
+        cfgs = [(3, 1), (4, 1)] if ctx.quick else [(2, 0), (3, 1), (4, 1), (5, 2)]
+        corpus_check(ctx, 'C09', names, cfgs, nrand=2 if ctx.quick else 4,
+                     budget_events=200000 if ctx.quick else 600000, clauses=CLAUSES, nfam=2)
         # rename C10-keyed violations of the Dup replay
         ctx.assumptions += ['_hop collisions do not occur (observed ones would be reported)']
     finally:
